@@ -23,6 +23,8 @@ META = {
             "(watchdog) must equal the extracted model's; a specification oracle independent of the model checks the received events against the "
             "breakpoint-filtered list of rule visits (built-in rules included) that a listener-free walk of the optimized grammar produces, and that "
             "breakpoint edits issued while the parse is stopped return (C17_breakpoint_edits_never_block: the Mutex is modelled with explicit acquire/release steps). "
+            "Histories with pauses also run under natural timing (open gates; continue before the pending event is received included) against the specification oracle alone: "
+            "nothing may be lost, the outcome must arrive before the channel closes. "
             "add_all_rules_breakpoints is a command of the model (CAdd over the grammar's rules under one guard) and of the histories. "
             "Front end (debugger/src/main.rs): whole sessions (options -b/-r, lines b d ba da r c l) are run through the real pest_debugger binary "
             "and its printed stops compared with the model driven as main.rs drives the API (parsing thread first, since the front end waits for "
@@ -97,6 +99,39 @@ def run_cli(hbin, runner, cli, header, nsessions, seed, res, mode):
         mm2, _ = go(again, 400, "b") if again else ([], 0)
         mm = [m for m in mm if not m["case"]] + mm2
     return mm, total, cases[:3]
+
+
+def run_free(hbin, runner, header, n, seed):
+    """histories under natural timing (open gates, pauses in the history) against the specification oracle; what differs is run a second time"""
+    rc, gen = sh("%s genfree %d %d" % (runner, n, seed), stdin=("\n".join(header) + "\n").encode(), timeout=300)
+    cases = [l for l in gen.split("\n") if l and not (l.startswith("MODE\t") or l.startswith("CFG\t"))]
+    # continue issued before the pending event was received, several hits to come (nothing may be lost)
+    cases = ["ident\t1\t2\tR,K,S,V,V,K,S,V", "builtin\t1\t1\tR,K,S,V,S,V,K,S,V,K,V", "ident\t1\t0,1,2,3\tR,K,K,S,V,S,V,S,V"] + cases
+    d = os.path.join(BUILD, "c17.d")
+    os.makedirs(d, exist_ok=True)
+
+    def go(cases, tag):
+        k = max(1, min(SHARDS, len(cases)))
+        cmds = []
+        for i in range(k):
+            path = os.path.join(d, "free-%s-%d.txt" % (tag, i))
+            with open(path, "w") as f:
+                f.write("\n".join(header + cases[i::k]) + "\n")
+            cmds.append("%s free < %s | %s check" % (hbin, path, runner))
+        mm, total = [], 0
+        for rc, out in run_pipeline(cmds, timeout=1800):
+            m, st, _ = parse_runner_output(out)
+            total += st.get("cases", 0)
+            if rc != 0 or "mismatches" not in st:
+                mm.append({"kind": "harness", "case": "", "impl": "free pipeline failed rc=%s" % rc, "expected": out[-800:]})
+            mm += parse_mismatch_lines(out)
+        return mm, total
+    mm, total = go(cases, "a")
+    again = sorted(set("\t".join(m["case"].split("\t")[:4]) for m in mm if m["case"]))
+    if again:
+        mm2, _ = go(again, "b")
+        mm = [m for m in mm if not m["case"]] + mm2
+    return mm, total
 
 
 def cli_describe(case):
@@ -262,6 +297,8 @@ def run(tier, seed, replay=None):
                       {"theorem_or_correspondence": "C17 front-end correspondence: binary vs extracted model (parsing thread first)",
                        "case": w["case"], "front_end": True, "impl": w["impl"], "model": w["expected"]}, no_failing_input=True)
 
+    free_m, free_total = run_free(hbin, runner, header, 120 if tier == "quick" else 4000, seed)
+    mism += free_m
     spec_m = [m for m in mism if m["kind"] == "spec"]
     model_m = [m for m in mism if m["kind"] == "model"]
     other_m = [m for m in mism if m["kind"] not in ("spec", "model")]
@@ -321,6 +358,7 @@ def run(tier, seed, replay=None):
         "samples": corpus + cases[:3],
         "runner_cases": stats.get("cases", 0),
         "front_end_sessions": cli_total,
+        "natural_timing_histories": free_total,
         "front_end_samples": cli_samples,
         "mismatches": len(mism),
     })
